@@ -83,6 +83,16 @@ package transaction
 //@   ensures[C03,C17] tx.storage.batches == old(tx.storage.batches) && lockstate(tx.rwLock) == old(lockstate(tx.rwLock))
 //@   ensures[C17] !old(tx.active) ==> err == ErrTransactionClosed && len(tx.buffer.operations) == old(len(tx.buffer.operations))
 //@   ensures[C16,C04] old(tx.active) && tx.mode == ReadOnly ==> err == ErrReadOnlyTransaction && len(tx.buffer.operations) == old(len(tx.buffer.operations))
+// A transaction's scans see its own writes: when the buffer is merged with the storage iterator, the buffer is the
+// first (newest) source of the merge, in which the earliest source wins a key present in both.
+//@ func (*TransactionImpl).NewIterator
+//@   requires TxInv(tx) && lockstate(tx.mu) == 0
+//@   ensures[C04,C05] true
+//@   check[C04,C05] before call NewHierarchicalIterator#1: len(arg_iterators) == 2 && dyn(arg_iterators[0]) == bufferIter
+//@ func (*TransactionImpl).NewRangeIterator
+//@   requires TxInv(tx) && lockstate(tx.mu) == 0
+//@   ensures[C04,C05] true
+//@   check[C04,C05] before call NewHierarchicalIterator#1: len(arg_iterators) == 2 && dyn(arg_iterators[0]) == boundedBufferIter
 //@ func (*TransactionImpl).Get
 //@   requires TxInv(tx) && lockstate(tx.mu) == 0
 //@   ensures[C04,C17] TxInv(tx) && tx.active == old(tx.active)
